@@ -1,0 +1,49 @@
+//go:build verif
+
+// Contracts for the command package, checked by /verif/engine (govc). Comment-only file.
+
+package main
+
+//@ func decrypt3k3yCmd.Run results(err)
+//@   tags C20,C04
+//@   requires c != nil && c.Image != nil && c.Output != nil
+//@   modifies fopen, fpos, iofaults, stdoutn, copysrc, copydst, viewkeyarr, viewkeyoff, viewfile, wn, wdata
+//@   ensures[C20] stdoutn == old(stdoutn) @stdout-carries-only-the-image
+//@   ensures[C20] err == nil ==> copydst == c.Output && typeis(copysrc, "*fs.ISO3k3y") && typeis(viewfile[copysrc], "*fs.EncryptedISO") && viewfile[viewfile[copysrc]] == c.Image @masked-decrypted-view-of-the-image-is-copied
+//@   ensures[C20] err == nil ==> cast(viewfile[copysrc], "fs.EncryptedISO").clearRegions && (forall q :: 0 <= q && q < 16 ==> viewkeyarr[viewfile[copysrc]][viewkeyoff[viewfile[copysrc]] + q] == fcontent[c.Image][0xF80 + q]) @embedded-key-and-cleared-header
+
+//@ func decryptRedumpCmd.Run results(err)
+//@   tags C20,C04
+//@   requires c != nil && c.Image != nil && c.Output != nil && c.Key != nil
+//@   modifies fopen, fpos, iofaults, stdoutn, copysrc, copydst, viewkeyarr, viewkeyoff, viewfile, wn, wdata
+//@   ensures[C20] stdoutn == old(stdoutn) @stdout-carries-only-the-image
+//@   ensures[C20] err == nil ==> copydst == c.Output && typeis(copysrc, "*fs.EncryptedISO") && viewfile[copysrc] == c.Image && cast(copysrc, "fs.EncryptedISO").clearRegions @decrypted-view-of-the-image-is-copied
+//@   ensures[C20] err == nil ==> forall q :: 0 <= q && q < 16 ==> viewkeyarr[copysrc][viewkeyoff[copysrc] + q] == hexkey(fcontent[c.Key])[q] @key-file-used
+
+//@ func makeISOApp.Run results(err)
+//@   tags C20,C04
+//@   requires a != nil && a.Target != nil
+//@   modifies fopen, fpos, iofaults, copysrc, copydst, wn, wdata
+//@   ensures[C20] err == nil ==> copydst == a.Target && typeis(copysrc, "*fs.VirtualISO") && cast(copysrc, "fs.VirtualISO").ps3Mode == a.PS3Mode && (a.Directory != "" ==> cast(copysrc, "fs.VirtualISO").root == a.Directory) @the-generated-image-of-the-directory-is-copied
+
+//@ func listenTCP results(l, err)
+//@   trusted
+//@   ensures err == nil ==> l != nil && fresh(l)
+//@   ensures err != nil ==> l == nil
+
+//@ func serverApp.warnIPRange
+//@   tags C04
+//@   requires sapp != nil && listener != nil
+
+// Wiring of the server command: what Serve is started with.
+//@ func serverApp.server results(err)
+//@   tags C15,C05,C16,C01,C04
+//@   requires sapp != nil
+//@   modifies srvListener, srvHandler, srvTimeout
+//@   let h = cast(srvHandler, "handler.Handler")
+//@   ensures[C16] err == nil ==> srvTimeout == sapp.ReadTimeout @configured-timeout-reaches-the-server
+//@   ensures[C05] err == nil ==> typeis(srvHandler, "*handler.Handler") && cast(srvHandler, "handler.Handler").AllowWrite == sapp.AllowWrite @write-switch-reaches-the-handler
+//@   ensures[C01] err == nil ==> typeis(cast(srvHandler, "handler.Handler").Fs, "*fs.FS") && bpRoot(cast(cast(srvHandler, "handler.Handler").Fs, "fs.FS").Fs) == sapp.Root && typeis(bpSource(cast(cast(srvHandler, "handler.Handler").Fs, "fs.FS").Fs), "*afero.OsFs") @served-filesystem-is-the-root-confined-one
+//@   ensures[C15] err == nil && sapp.ClientWhitelist != nil ==> typeis(srvListener, "*iprange.filteringListener") && cast(srvListener, "iprange.filteringListener").r == sapp.ClientWhitelist && !cast(srvListener, "iprange.filteringListener").invert @whitelist-filter-is-outermost
+//@   ensures[C15] err == nil && sapp.ClientWhitelist != nil && sapp.MaxClients > 0 ==> limitN(cast(srvListener, "iprange.filteringListener").Listener) == sapp.MaxClients @rejected-connections-pass-the-limiter-first
+//@   ensures[C15] err == nil && sapp.ClientWhitelist == nil && sapp.MaxClients > 0 ==> limitN(srvListener) == sapp.MaxClients @limit-applied
